@@ -26,7 +26,7 @@ func TestC01(t *testing.T) {
 		"the engine's map iteration order cannot be seeded: every case is executed 2-3 times (24 times once a failure was seen)")
 	defer col.Flush()
 	cfg := rsGenCfg{Rules: fullRuleCfg(), GRB: true, Vary: true}
-	check(t, 0, budget(1500, 60000), func(rt *rapid.T) {
+	check(t, 0, budget(6000, 80000), func(rt *rapid.T) {
 		c, rs := genRSCase(rt, cfg)
 		rep, v := runValidated(rt, c, "C01")
 		nt := rep.FlipsTF > 0
